@@ -170,6 +170,8 @@ def _spec_of_case(case):
 
 
 P_NONE = [["none"]]  # get_asm returns None: "no insertion takes place"
+P_MID = [["p", 0], ["lab", ".Lm"], ["p", 0]]  # a label in the middle: its second half can absorb what follows, its first cannot absorb it
+P_SIDE = [["p", 0], ["side"]]  # also brings bytes for a section of its own
 
 
 def _atoms(spec, target):
@@ -184,6 +186,11 @@ def _atoms(spec, target):
                     atoms.append({"op": "ins", "b": b["n"], "k": 0, "p": P_NONE})
                     for k in range(n):
                         atoms.append({"op": "rep", "b": b["n"], "k": k, "n": 1, "p": P_NONE})
+                    for k in range(n + 1):
+                        atoms.append({"op": "ins", "b": b["n"], "k": k, "p": P_MID})
+                        atoms.append({"op": "ins", "b": b["n"], "k": k, "p": P_SIDE})
+                    if n:
+                        atoms.append({"op": "rep", "b": b["n"], "k": 0, "n": 1, "p": P_MID})
     return atoms
 
 
